@@ -592,7 +592,7 @@ def inclusion(run, R="INC"):
                 is_std = std_edge is not None and nav.edge_dominates(std_edge[0], std_edge[1], bi)
                 if not (through or is_std):
                     stray.append(nav.loc(st.get("span")) if st.get("span") else "bb%d" % bi)
-        run.check(oks >= 2 and bool(dd_heads) and not stray, R, R + "|navigate|ok-only-through-collapse", nav.loc(),
+        run.check(oks >= 1 and bool(dd_heads) and not stray, R, R + "|navigate|ok-only-through-collapse", nav.loc(),
                   "every `Ok` of filename_navigate is the unchanged library path or comes after the `..` collapse loop (%d Ok construction(s))" % oks,
                   "filename_navigate answers `Ok` on a path that does not run the `..` collapse (%s): the including file's own components are then never tested, so with a root file given as `../outer.asm` a plain `#include \"sibling.asm\"` reads outside the working directory" % (", ".join(stray) or "collapse loop not found"))
         run.check(found, R, R + "|navigate|dotdot-confined", nav.loc(), "`..` with nothing left to pop is reported and rejected", "filename_navigate no longer rejects `..` past the start of the path")
